@@ -16,11 +16,11 @@ type VPCtx = vpCtx
 func VPNewConn(in []byte) *VPConn { return newVPConn(in) }
 func VPNewCtx() *VPCtx            { return newVPCtx() }
 
-func (c *vpConn) Out() [][]byte   { return c.out }
-func (c *vpConn) Closes() int     { return c.closes }
-func (c *vpConn) Reads() int      { return c.reads }
+func (c *vpConn) Out() [][]byte    { return c.out }
+func (c *vpConn) Closes() int      { return c.closes }
+func (c *vpConn) Reads() int       { return c.reads }
 func (c *vpConn) SetHook(f func()) { c.hook = f }
-func (c *vpCtx) Cancel()          { c.cancel() }
+func (c *vpCtx) Cancel()           { c.cancel() }
 
 // VPHandle runs the real connection loop on conn with handler h.
 func VPHandle(ctx context.Context, conn net.Conn, secret []byte, l loggerProvider, h Handler) {
